@@ -53,7 +53,7 @@ def streams(ctx):
 
 def gen_inputs(r, pk):
     n = r.randint(1, 5)
-    names = r.sample(["Alpha", "Beta", "Gamma", "Delta", "Conf", "Model", "Node"], n)
+    names = r.sample(["Alpha", "Beta", "Gamma", "Delta", "Conf", "Model", "Node", "Warning", "filter", "input", "ConnectionError", "format", "X", "a1"], n)  # (entries named like builtins, one-letter names)
     irs = [irgen.rand_ir(r, nparams=r.randint(1, 4), type_kinds=T, default_kinds=D, with_return=False, name=nm,
                          doc_kinds=("plain", "plain", "punct", "long"))
            for nm in names]
